@@ -398,4 +398,99 @@ theorem metaAt_decl (m0 : Nat) (mid qs name close rest : Bytes)
   simp only [litMeta, List.cons_append, List.nil_append, List.drop_succ_cons, List.drop_zero, hm0', Bool.false_eq_true, if_false]
   exact lastCharset_append_some mid _ name hmid hCS
 
+/-! ## nothing is found without the markers -/
+
+/-- some `<` in the text is followed (after optional white space) by `meta`, in any case -/
+def hasMetaOpen : Bytes → Bool
+  | [] => false
+  | c :: t => (c == 60 && startsCI litMeta (t.dropWhile isSpace)) || hasMetaOpen t
+
+/-- `lit` occurs in `l`, ignoring case -/
+def containsCI (lit : Bytes) : Bytes → Bool
+  | [] => startsCI lit []
+  | c :: t => startsCI lit (c :: t) || containsCI lit t
+
+theorem htmlSearch_none_of_no_meta (w : Bytes) (h : hasMetaOpen w = false) : htmlSearch w = none := by
+  induction w with
+  | nil => rfl
+  | cons c t ih =>
+    simp only [hasMetaOpen, Bool.or_eq_false_iff, Bool.and_eq_false_iff] at h
+    rw [htmlSearch]
+    by_cases hc : (c == 60) = true
+    · simp only [hc, if_true]
+      have hs : startsCI litMeta (t.dropWhile isSpace) = false := by
+        rcases h.1 with h1 | h1
+        · rw [hc] at h1; cases h1
+        · exact h1
+      have : metaAt t = none := by simp [metaAt, hs]
+      rw [this]
+      exact ih h.2
+    · simp only [hc, Bool.false_eq_true, if_false]
+      exact ih h.2
+
+theorem lastCharset_none_of_no_charset (l : Bytes) (h : containsCI litCharset l = false) : lastCharset l = none := by
+  induction l with
+  | nil => rfl
+  | cons c t ih =>
+    simp only [containsCI, Bool.or_eq_false_iff] at h
+    have hh : charsetHere (c :: t) = none := by simp [charsetHere, h.1]
+    rw [lastCharset]
+    by_cases hc : (c == 62) = true
+    · simp [hc, hh]
+    · simp only [hc, Bool.false_eq_true, if_false, ih h.2, hh]
+
+theorem containsCI_drop (lit l : Bytes) (n : Nat) (h : containsCI lit l = false) (hl : lit ≠ []) :
+    containsCI lit (l.drop n) = false := by
+  induction n generalizing l with
+  | zero => simpa using h
+  | succ k ih =>
+    cases l with
+    | nil => simpa using h
+    | cons c t =>
+      simp only [containsCI, Bool.or_eq_false_iff] at h
+      simpa using ih t h.2
+
+theorem containsCI_dropWhile (lit l : Bytes) (p : Nat → Bool) (h : containsCI lit l = false) :
+    containsCI lit (l.dropWhile p) = false := by
+  induction l with
+  | nil => simpa using h
+  | cons c t ih =>
+    simp only [List.dropWhile_cons]
+    split
+    · simp only [containsCI, Bool.or_eq_false_iff] at h
+      exact ih h.2
+    · exact h
+
+theorem htmlSearch_none_of_no_charset (w : Bytes) (h : containsCI litCharset w = false) : htmlSearch w = none := by
+  induction w with
+  | nil => rfl
+  | cons c t ih =>
+    have ht : containsCI litCharset t = false := by
+      simp only [containsCI, Bool.or_eq_false_iff] at h; exact h.2
+    rw [htmlSearch]
+    have hm : metaAt t = none := by
+      unfold metaAt
+      dsimp only
+      split
+      · have h1 := containsCI_dropWhile litCharset t isSpace ht
+        have h2 := containsCI_drop litCharset _ 4 h1 (by decide)
+        cases hd : (t.dropWhile isSpace).drop 4 with
+        | nil => rfl
+        | cons x u =>
+          rw [hd] at h2
+          simp only [containsCI, Bool.or_eq_false_iff] at h2
+          simp only [lastCharset_none_of_no_charset u h2.2]
+          split <;> rfl
+      · rfl
+    simp only [hm, ih ht]
+    split <;> rfl
+
+theorem lastEncoding_none_of_no_encoding (l : Bytes) (h : containsCI litEncodingEq l = false) : lastEncoding l = none := by
+  induction l with
+  | nil => rfl
+  | cons c t ih =>
+    simp only [containsCI, Bool.or_eq_false_iff] at h
+    have hh : encHere (c :: t) = none := by simp [encHere, h.1]
+    simp only [lastEncoding, ih h.2, hh]
+
 end BS.EncodingIn
